@@ -71,6 +71,9 @@ def runesAux : Nat → Nat → Bytes → List (Nat × Nat)
 
 def runes (s : Bytes) : List (Nat × Nat) := runesAux s.length 0 s
 
+/-- `[]rune(s)`: the runes that `range` yields, without their offsets (`string(rs)` is `encodeAll rs`) -/
+def toRunes (s : Bytes) : List Nat := (runes s).map Prod.snd
+
 /-- `s[i]` -/
 def index (s : Bytes) (i : Nat) : Option Nat := s[i]?
 
